@@ -556,7 +556,7 @@ theorem pngVal_path (conv : Conv C) (po : Bool) (w : World C) (v : Val C) (t : S
 
 /-- `RenderLaTeX → Write → LaTeXToPDF → PDFToPNG` on a CSV value is `downCore` on the resolved names -/
 theorem tailStage_eq_downCore (conv : Conv C) (cfg : Cfg) (tpl : Nat) (w : World C) (v : Val C) (deps : List String)
-    (d fn fe pt : String) (hft : v.out.filetype = some "csv")
+    (d fn fe pt : String) (hft : v.out.filetype = some "csv") (hnw : v.noWrite = false)
     (hdeps : (match v.group with
               | none => v.out.filepath.toList
               | some g => g.filterMap (·.filepath)) = deps)
@@ -569,10 +569,10 @@ theorem tailStage_eq_downCore (conv : Conv C) (cfg : Cfg) (tpl : Nat) (w : World
   intro w' oc hs
   unfold tailStage
   have hr : renderVal conv tpl v = ⟨Data.text (conv.texOf tpl deps), v.name,
-      { v.out with filetype := some "tex", fileext := some "tex" }, v.group⟩ := by
+      { v.out with filetype := some "tex", fileext := some "tex" }, v.group, v.noWrite⟩ := by
     unfold renderVal; rw [if_pos hft]; subst hdeps; rfl
   rw [writeVal_text conv cfg.outdir cfg.w2 w (renderVal conv tpl v) (conv.texOf tpl deps) d fn fe pt
-    (by rw [hr]) (by rw [hr]; exact hn)]
+    (by rw [hr]) (by rw [hr]; exact hnw) (by rw [hr]; exact hn)]
   simp only [hr]
   rw [latexVal_path conv cfg.lo _ _ pt rfl rfl]
   unfold downCore convCore at hs
@@ -629,13 +629,13 @@ theorem runPlot_eq_sepCore (conv : Conv C) (cfg : Cfg) (ms : List (MFKey × Tpl)
       unfold runPlot memberStage
       have hv : (mfVal cfg.mf.overwrite ms (toCsvVal conv pl.name pl.data {}) : Val C)
           = ⟨.text (conv.csvOf pl.data), pl.name, plotCtx cfg ms pl, none, false⟩ := rfl
-      rw [hv, writeVal_text conv cfg.outdir cfg.w1 w _ (conv.csvOf pl.data) d1 fn fe pc' rfl (by rw [← hft] at h1; exact h1)]
+      rw [hv, writeVal_text conv cfg.outdir cfg.w1 w _ (conv.csvOf pl.data) d1 fn fe pc' rfl rfl (by rw [← hft] at h1; exact h1)]
       simp only [hch]
       unfold sepCore at hs
       simp only at hs
       exact tailStage_eq_downCore conv cfg tpl (writeCore cfg.w1 pc' (conv.csvOf pl.data) w none).1
         ⟨.path pc', pl.name, { plotCtx cfg ms pl with filename := some fn, fileext := some fe, filepath := some pc', changed := (writeCore cfg.w1 pc' (conv.csvOf pl.data) w none).2 }, none, false⟩
-        [pc'] d2 fn2 fe2 pt hft rfl h2 _ rfl rfl rfl w' oc hs
+        [pc'] d2 fn2 fe2 pt hft rfl rfl h2 _ rfl rfl rfl w' oc hs
 
 
 /-! ## one plot, pipeline level -/
@@ -947,7 +947,7 @@ theorem memberStage_eq (conv : Conv C) (cfg : Cfg) (ms : List (MFKey × Tpl)) (w
     unfold memberStage
     have hv : (mfVal cfg.mf.overwrite ms (toCsvVal conv pl.name pl.data {}) : Val C)
         = ⟨.text (conv.csvOf pl.data), pl.name, plotCtx cfg ms pl, none, false⟩ := rfl
-    rw [hv, writeVal_text conv cfg.outdir cfg.w1 w _ (conv.csvOf pl.data) d1 fn fe pc' rfl (by rw [← hft] at h1; exact h1)]
+    rw [hv, writeVal_text conv cfg.outdir cfg.w1 w _ (conv.csvOf pl.data) d1 fn fe pc' rfl rfl (by rw [← hft] at h1; exact h1)]
     simp only [hch]
 
 theorem runMembers_eq (conv : Conv C) (cfg : Cfg) (ms : List (MFKey × Tpl)) :
